@@ -653,8 +653,9 @@ func createConnHandler(
 			ctx := stream.Context()
 
 			args := dynamicpb.NewMessage(argsDesc)
-			if err := stream.RecvMsg(args); err != nil {
-				return err
+			firstErr := stream.RecvMsg(args)
+			if firstErr != nil && !(firstErr == io.EOF && sd.ClientStreams) {
+				return firstErr
 			}
 
 			if md, ok := metadata.FromIncomingContext(ctx); ok {
@@ -665,13 +666,16 @@ func createConnHandler(
 			if err != nil {
 				return err
 			}
-			if err := clientStream.SendMsg(args); err != nil {
+			if firstErr == io.EOF {
+				// The client half-closed without sending a message.
+				clientStream.CloseSend() //nolint:errcheck
+			} else if err := clientStream.SendMsg(args); err != nil {
 				return err
 			}
 
 			var inErr error
 			var wg sync.WaitGroup
-			if sd.ClientStreams {
+			if sd.ClientStreams && firstErr == nil {
 				wg.Add(1)
 				go func() {
 					for {
